@@ -156,7 +156,9 @@ def main():
         root = os.path.join(moddir, "p%d" % k)
         P.render_project(p, root, "verifproj/p%d" % k)
         # K independent copies of the configuration so that runs can proceed in parallel
-        for r in range(K):
+        # the deliberate enum projects are repeated more often: an order that follows token positions across files flips
+        # only in a fraction of the runs
+        for r in range(K if not p.get("split_enums") else max(K, 12)):
             name = P.render_config(p, root, "verifproj/p%d" % k, openapi="3.0.0")
             conf = json.load(open(os.path.join(root, name)))
             conf["routesConfig"]["outputPath"] = "./dist/run%d/routes.go" % r
@@ -268,7 +270,10 @@ Print propfail.
             rp = json.load(open(a.replay))
             seqs = [(rp.get("engine", "gin"), [(x["edit"], x["project"], x.get("extra")) for x in rp["input"]["sequence"]])]
         else:
-            bases = [p for p in projects if p["controllers"][0]["methods"]][:(1 if a.tier == "quick" else 8)]
+            # the first base is the deliberate all-enums project (package-qualified parameter types: import serials and
+            # aliases are in play), then random ones
+            delib = [p for p in projects if p.get("split_enums")][:1]
+            bases = (delib + [p for p in projects if p["controllers"][0]["methods"] and not p.get("split_enums")])[:(1 if a.tier == "quick" else 8)]
             seqs = [(ENGINES[i % len(ENGINES)], seqleg.edits(rng, b)) for i, b in enumerate(bases)]
         import concurrent.futures
         with concurrent.futures.ThreadPoolExecutor(max_workers=4) as ex:
